@@ -113,7 +113,7 @@ def run(ctx):
         body = body_or_coroutine(P, fid)
         ctx.saw(body)
         T = terms(P, body)
-        for b, bb, idx, s in find_aggs(P, "dns::dnspkt::DNSPkt", [body]):
+        for b, bb, idx, s in final_aggs(P, body, "dns::dnspkt::DNSPkt"):
             t = T.rvalue(s["rv"], bb, idx)
             fields = dict(t[3])
             where = ctx.where(body, s["sp"])
